@@ -383,3 +383,91 @@ Definition tx := (N * N)%type.                        (* (transaction id, size i
 Definition payload (l : list tx) : N := fold_right (fun t a => snd t + a) 0 l.
 Definition sub_of (enc : list tx -> batch) (req : option (list tx)) : usub :=
   match req with None => UNil | Some [] => UEmpty | Some l => UB (enc l) end.
+
+(* ==== the bound is a parameter of every PROCESS START =====================================================
+   maxQueueSize is an argument of NewSequencerWithQueueSize (sequencer.go:60-80) -> NewBatchQueue (queue.go:48-54):
+   it is fixed for the life of one process, and a restart may bring another one (the operator lowers or raises the
+   bound; an upgrade from "unlimited").  Load (queue.go:120-158) does not look at it: the query has no Limit, EVERY
+   record is reloaded, and nextSeq continues above every record — so a process started with a bound smaller than the
+   number of pending batches holds more than its bound; AddBatch (queue.go:63) then refuses until enough was handed
+   out.  Histories of this layer name the bound of the process each restart / crash recovery starts. *)
+Inductive vitem :=
+| VOp (o : uop)                            (* the operation runs to completion, under the current process's bound *)
+| VStart (max : N)                         (* the process stops between operations; a new one is started with bound [max] *)
+| VCrash (o : uop) (n : nat) (max : N).    (* the process dies inside o after n of its writes; a new one with bound [max] *)
+
+(* vmax = BatchQueue.maxQueueSize of the running process; vload = len(bq.queue) when its Load returned *)
+Record vstate := { vr : rstate; vmax : N; vload : N }.
+
+Definition v_boot (max : N) (d : list entry) : vstate :=
+  {| vr := r_boot d; vmax := max; vload := N.of_nat (length d) |}.
+Definition v_st0 (max : N) : vstate := v_boot max [].
+
+Definition v_plain (it : vitem) : uitem :=
+  match it with VOp o => UOp o | VStart _ => URestart | VCrash o n _ => UCrash o n end.
+(* the bound in force after the item *)
+Definition v_next_max (cur : N) (it : vitem) : N :=
+  match it with VOp _ => cur | VStart m => m | VCrash _ _ m => m end.
+
+(* operations and crash cuts happen under the running process's bound; the process start itself ([r_boot] inside
+   [r_step]: Load + counter) takes no bound at all *)
+Definition v_step (st : vstate) (it : vitem) : vstate * option out :=
+  let '(rst', r) := r_step (vmax st) (vr st) (v_plain it) in
+  match it with
+  | VOp _ => ({| vr := rst'; vmax := vmax st; vload := vload st |}, r)
+  | VStart m | VCrash _ _ m =>
+      ({| vr := rst'; vmax := m; vload := N.of_nat (length (mem (core rst'))) |}, r)
+  end.
+
+Fixpoint v_run (st : vstate) (h : list vitem) : vstate * list (option out) :=
+  match h with
+  | [] => (st, [])
+  | it :: r =>
+      let '(st', o) := v_step st it in
+      let '(st'', os) := v_run st' r in
+      (st'', o :: os)
+  end.
+
+(* [max0] = the bound of the first process (on an empty datastore) *)
+Definition v_final (max0 : N) (h : list vitem) : vstate := fst (v_run (v_st0 max0) h).
+Definition v_outputs (max0 : N) (h : list vitem) : list (option out) := snd (v_run (v_st0 max0) h).
+
+Fixpoint v_wlog (st : vstate) (h : list vitem) : list wr :=
+  match h with
+  | [] => []
+  | it :: r => r_wlog (vmax st) (vr st) [v_plain it] ++ v_wlog (fst (v_step st it)) r
+  end.
+
+(* the specification: the same plain FIFO; the bound only decides whether a submission is accepted, and it is the
+   bound of the process that receives the submission.  A restart changes nothing in the queue, whatever the bounds. *)
+Fixpoint sv_run (max : N) (q : list batch) (h : list vitem) : list batch * list (option out) :=
+  match h with
+  | [] => (q, [])
+  | it :: r =>
+      let '(q', o) := s_item max q (v_plain it) in
+      let '(q'', os) := sv_run (v_next_max max it) q' r in
+      (q'', o :: os)
+  end.
+Definition sv_final (max0 : N) (h : list vitem) : list batch := fst (sv_run max0 [] h).
+Definition sv_outputs (max0 : N) (h : list vitem) : list (option out) := snd (sv_run max0 [] h).
+
+Fixpoint sv_accepted (max : N) (q : list batch) (h : list vitem) : list batch :=
+  match h with
+  | [] => []
+  | it :: r => accepted_by max q (v_plain it) ++ sv_accepted (v_next_max max it) (fst (s_item max q (v_plain it))) r
+  end.
+Fixpoint sv_delivered (max : N) (q : list batch) (h : list vitem) : list batch :=
+  match h with
+  | [] => []
+  | it :: r => delivered_by q (v_plain it) ++ sv_delivered (v_next_max max it) (fst (s_item max q (v_plain it))) r
+  end.
+
+(* "the queue is a durable exactly-once FIFO on history h", bounds changing from process to process *)
+Definition v_fifo (max0 : N) (h : list vitem) : Prop :=
+  v_outputs max0 h = sv_outputs max0 h /\
+  map snd (mem (core (vr (v_final max0 h)))) = sv_final max0 h /\
+  map snd (db (core (vr (v_final max0 h)))) = sv_final max0 h.
+
+(* a history whose process starts all use the same bound *)
+Definition v_of (max : N) (it : uitem) : vitem :=
+  match it with UOp o => VOp o | URestart => VStart max | UCrash o n => VCrash o n max end.
